@@ -15,8 +15,12 @@ def generate(rng, tier, shard, nshards):
         pool = cs + rng.sample(rops.CHARS, 2)          # the pattern may mention characters outside the set
         r = rops.rand_re(rng, pool)
         L = 3 if k <= 4 else 2
-        yield rops.event("regex", {"re": r, "cs": sorted(cs), "L": L if tier == "quick" else L + 1},
-                         site="interegular_to_wfsa", feat=rops.refeat(r))
+        args = {"re": r, "cs": sorted(cs), "L": L if tier == "quick" else L + 1}
+        ft = rops.refeat(r)
+        if i % 3 == 0:        # the caller reuses one character-set object for several patterns
+            args["warm"] = [rops.rand_re(rng, pool) for _ in range(rng.randint(1, 2))]
+            ft = ft + "+charset-reused"
+        yield rops.event("regex", args, site="interegular_to_wfsa", feat=ft)
     if shard == 0:
         for pat_re, cs in [({"t": "ci", "e": {"t": "lit", "c": "ß"}}, ["ß", "s", "S"]),
                            ({"t": "ci", "e": {"t": "lit", "c": "k"}}, ["k", "K", "K"]),
